@@ -60,6 +60,13 @@ def families():
         "groupby-cumsum": (lambda d: d.groupby("k").x.cumsum(), False, True),
         "sort_values": (lambda d: d.sort_values(["y", "x"]), True, True),
         "set_index": (lambda d: d.set_index("x") if isd(d) else d.set_index("x").sort_index(kind="stable"), False, True),
+        # a key that is already ordered across the partitions, with equal values on both sides of a cut (presorted fast paths)
+        "sort_values-presorted-2keys": (lambda d: d.sort_values(["p", "y"]), True, True),
+        "sort_values-presorted-then-cumsum": (lambda d: d.sort_values(["p", "x"]).x.cumsum(), True, True),
+        "sort_values-presorted-then-head": (lambda d: d.sort_values(["p", "y"]).head(4, npartitions=-1) if isd(d) else d.sort_values(["p", "y"]).head(4), True, True),
+        "set_index-presorted": (lambda d: d.set_index("p") if isd(d) else d.set_index("p").sort_index(kind="stable"), False, True),
+        "set_index-presorted-loc": (lambda d: d.set_index("p").loc[1:1], False, True),
+        "set_index-presorted-cumsum": (lambda d: d.set_index("p").k.cumsum().reset_index(drop=True) if not isd(d) else d.set_index("p").k.cumsum().reset_index(drop=True), False, False),
         "cumsum": (lambda d: d[["x", "y"]].cumsum(), True, True),
         "cummax-cumprod": (lambda d: d.x.cummax() + d.y.cumprod(), True, True),
         "cummin-frame": (lambda d: d[["x", "y"]].cummin(), True, True),
@@ -98,6 +105,10 @@ def two_input_families():
         "merge-right": (lambda a, b: a.merge(b, on="k", how="right"), False, False),
         "merge-outer": (lambda a, b: a.merge(b, on="k", how="outer"), False, False),
         "merge-left_on-right_index": (lambda a, b: a.merge(b.set_index("k") if not isd(b) else b.set_index("k"), left_on="k", right_index=True), False, False),
+        # mixed key placement: a column on one side, the *named index referred to by name* on the other (hash join)
+        "merge-column-vs-named-index": (lambda a, b: a.merge(b.set_index("k"), left_on="k", right_on="k", **({"shuffle_method": "tasks", "broadcast": False} if isd(a) else {})), False, False),
+        "merge-named-index-vs-column": (lambda a, b: a.set_index("k").merge(b, on="k", how="left", **({"shuffle_method": "tasks", "broadcast": False} if isd(a) else {})), False, False),
+        "merge-column-vs-named-float-index": (lambda a, b: a.merge(b.astype({"k": "float64"}).set_index("k"), left_on="k", right_on="k", how="outer", **({"shuffle_method": "tasks", "broadcast": False} if isd(a) else {})), False, False),
         "merge-index-index": (lambda a, b: a[["x"]].merge(b[["v"]], left_index=True, right_index=True, how="inner"), False, True),
         "join": (lambda a, b: a[["x"]].join(b[["v"]], how="left"), False, True),
         "align-add": (lambda a, b: a.x + b.v, False, True),
@@ -125,7 +136,8 @@ def run(run):
     quick = run.tier == "quick"
     n = 6
     pdf = pd.DataFrame({"x": [3.0, 1.0, 4.0, 1.0, 5.0, 9.0][:n], "y": [2.0, 7.0, 1.0, 8.0, 2.0, 8.0][:n], "k": [0, 1, 0, 2, 1, 0][:n], "j": [0, 0, 1, 1, 0, 0][:n],
-                        "z": [np.nan, 1.0, np.nan, np.nan, 2.0, np.nan][:n]}, index=pd.RangeIndex(n))
+                        "z": [np.nan, 1.0, np.nan, np.nan, 2.0, np.nan][:n],
+                        "p": [0, 0, 1, 1, 1, 2][:n]}, index=pd.RangeIndex(n))      # p: already ordered, equal values straddle most cuts
     F = families()
     lay = layouts(pdf, run.rng, quick)
     ncase = 0
